@@ -394,7 +394,7 @@ def walk_table(
                     else:
                         succ = [(m, l) for (m, l) in n.succ if l == "done"]
         for (m, l) in succ:
-            if l == "exc" and n.kind != "stmt":
+            if l == "exc" and n.kind not in ("stmt", "join"):
                 continue
             if l == "exc" and not _is_explicit_raise(n):
                 continue
@@ -406,6 +406,10 @@ def walk_table(
             used.discard(e)
 
     rec(start, (), (), ())
+    if not out:
+        from .loader import Undecided
+
+        raise Undecided(f"decision table: no path from line {start.lineno} reaches an end under {scenario}")
     if len(out) > limit:
         from .loader import Undecided
 
